@@ -64,6 +64,9 @@ pub struct Script {
     /// when the wire is exhausted: stay open (reads pend for ever) instead of reporting end of stream
     pub hold_open: bool,
     pub writes: usize,
+    /// k > 0: every k-th write finds the transport momentarily full - it returns Pending once (waking its task) and
+    /// then completes; such a transport still "keeps accepting writes"
+    pub slow_write_every: usize,
 }
 
 #[derive(Debug, Clone)]
@@ -144,14 +147,28 @@ impl ReadHalf for ScriptedRead {
     }
 }
 
+struct PendOnce(bool);
+impl Future for PendOnce {
+    type Output = ();
+    fn poll(mut self: Pin<&mut Self>, cx: &mut Context<'_>) -> Poll<()> {
+        if self.0 { Poll::Ready(()) } else { self.0 = true; cx.waker().wake_by_ref(); Poll::Pending }
+    }
+}
+
 impl WriteHalf for ScriptedWrite {
     async fn write(&mut self, buf: &[u8]) -> zlink_core::Result<()> {
-        let mut s = self.0.borrow_mut();
-        s.writes += 1;
-        if s.fail_writes.contains(&(s.writes - 1)) {
-            return Err(zlink_core::Error::SocketWrite);
+        let slow = {
+            let mut s = self.0.borrow_mut();
+            s.writes += 1;
+            if s.fail_writes.contains(&(s.writes - 1)) {
+                return Err(zlink_core::Error::SocketWrite);
+            }
+            s.slow_write_every > 0 && s.writes % s.slow_write_every == 0
+        };
+        if slow {
+            PendOnce(false).await;
         }
-        s.log.push(buf.to_vec());
+        self.0.borrow_mut().log.push(buf.to_vec());
         Ok(())
     }
 }
